@@ -36,7 +36,7 @@ def int_exact(v):
 
 
 def rint_x(rng, d, m):
-    return np.array([[float(rng.choice([-2, -1, 1, 2])) for _ in range(m)] for _ in range(d)])
+    return np.array([[float(rng.choice([-2, -1, 0, 1, 2])) for _ in range(m)] for _ in range(d)])       # 0: factors of the product vanish
 
 
 def gen_int_case(rng):
@@ -134,6 +134,8 @@ def side_case(seed):
             p = rng.randint(1, 4)
             basis = [[rand_fun(rng, d, 'float') for _ in range(rng.randint(1, 3))] for _ in range(p)]
             x = np.array([rng.uniform(0.2, 1.5) * rng.choice([1, -1]) for _ in range(d)])
+            if rng.random() < 0.3:          # points where some factor of the product vanishes exactly
+                x[rng.randrange(d)] = 0.0
             sigma = np.array([[rng.uniform(-1, 1) for _ in range(d2)] for _ in range(d)])
             b = np.array([rng.uniform(-1, 1) for _ in range(d)])
             s = tuple(rng.randrange(len(bl)) for bl in basis)
@@ -161,23 +163,48 @@ def side_case(seed):
         rew = rng.random() < 0.5
         w = np.array([rng.uniform(0.2, 2) for _ in range(m)]) if rew else None
         relthr = rng.random() < 0.4
-        thr = 1e-10
+        thr = rng.choice([1e-10, 1e-10, 1e-2, 0.1, 0.3])
+        maxr = rng.choice([np.inf, np.inf, 2, 3])
         opt = rng.choice(['eigenvectors', 'eigenfunctionevals', 'eigentensors'])
         nev = rng.choice([np.inf, np.inf, 1, 2])
-        desc.update(p=p, N=N, m=m, reweight=rew, rel_threshold=relthr, return_option=opt, num_eigvals=str(nev))
+        desc.update(p=p, N=N, m=m, reweight=rew, rel_threshold=relthr, threshold=thr, max_rank=str(maxr), return_option=opt, num_eigvals=str(nev))
         tuples, P, LP, G = dense_tables(basis, x, b, sigma)
         sw = np.sqrt(w) if rew else np.ones(m)
-        Pw = P * sw[None, :]
-        U, s, Vh = np.linalg.svd(Pw, full_matrices=False)
-        if s[0] == 0:
-            desc['skipped'] = 'zero data'
+        # independent global SVD mode by mode (the documented cut in every mode: absolute or relative threshold, then the
+        # rank cap; the weights enter at the last mode), in dense form: U is N x r with orthonormal columns
+        tabs = [np.array([[float(f(x[:, j])) for j in range(m)] for f in bl]) for bl in basis]
+        res_ = np.ones((1, m))
+        Uacc = np.ones((1, 1))                   # (prod n_1..n_i) x r_i
+        for i in range(p):
+            C = (res_[:, None, :] * tabs[i][None, :, :])
+            if i == p - 1:
+                C = C * sw[None, None, :]
+            C = C.reshape(res_.shape[0] * tabs[i].shape[0], m)
+            Ui, s, Vh = np.linalg.svd(C, full_matrices=False)
+            if s[0] == 0:
+                desc['skipped'] = 'zero data'
+                return None, desc
+            cut = thr * (s[0] if relthr else 1.0)
+            band = 1e3 if thr < 1e-6 else 1 + 1e-4          # tiny thresholds separate signal from rounding noise
+            if np.any((s > cut / band) & (s < cut * band)) or np.any((s / s[0] < 1e-7) & (s > cut)):
+                desc['skipped'] = 'singular value near the cut / ill-conditioned'
+                return None, desc
+            k_ = int(np.sum(s > cut))
+            if maxr != np.inf:
+                if k_ > maxr and s[maxr] > 0.999 * s[maxr - 1]:
+                    desc['skipped'] = 'no gap at the rank cap'
+                    return None, desc
+                k_ = min(k_, int(maxr))
+            if k_ == 0:
+                desc['skipped'] = 'everything cut'
+                return None, desc
+            Ui, s, Vh = Ui[:, :k_], s[:k_], Vh[:k_, :]
+            res_ = np.diag(s) @ Vh
+            Uacc = np.einsum('ar,rnk->ank', Uacc, Ui.reshape(Uacc.shape[1], tabs[i].shape[0], k_)).reshape(-1, k_)
+        U = Uacc
+        if not np.allclose(U.T @ U, np.eye(U.shape[1]), atol=1e-8):
+            desc['skipped'] = 'reference basis lost orthonormality'
             return None, desc
-        cut = thr * (s[0] if relthr else 1.0)
-        if np.any((s > cut * 1e-3) & (s < cut * 1e3)) or np.any((s / s[0] < 1e-7) & (s > cut)):
-            desc['skipped'] = 'singular value near the cut / ill-conditioned'
-            return None, desc
-        keep = s > cut
-        U, s, Vh = U[:, keep], s[keep], Vh[keep, :]
         if rev:
             Mref = np.zeros((len(s), len(s)))
             for l in range(m):
@@ -188,14 +215,14 @@ def side_case(seed):
             Mref = Vh @ np.diag(sw) @ LP.T @ U @ np.diag(1 / s)
         ref = np.linalg.eigvals(Mref)
         keepx = [x.copy(), sigma.copy()] + ([b.copy()] if b is not None else []) + ([w.copy()] if rew else [])
-        out = quiet(tg.amuset_hosvd, x, basis, sigma, b=b, reweight=w, num_eigvals=nev, threshold=thr, return_option=opt, rel_threshold=relthr)
+        out = quiet(tg.amuset_hosvd, x, basis, sigma, b=b, reweight=w, num_eigvals=nev, threshold=thr, max_rank=maxr, return_option=opt, rel_threshold=relthr)
         nowx = [x, sigma] + ([b] if b is not None else []) + ([w] if rew else [])
         if any(not np.array_equal(a_, b_) for a_, b_ in zip(keepx, nowx)):
             return 'amuset_hosvd modified an input array', desc
         ev, second, ranks = out
         r = len(s)
         if ranks[-2] != r:
-            return 'last TT rank %d differs from the rank %d of the (reweighted) transformed data matrix at this cut' % (ranks[-2], r), desc
+            return 'last TT rank %d differs from the rank %d of the mode-by-mode global SVD of the (reweighted) transformed data at this cut' % (ranks[-2], r), desc
         k = r if nev == np.inf else min(r, int(nev))
         if len(ev) != k:
             return '%d eigenvalues returned, expected %d' % (len(ev), k), desc
